@@ -127,6 +127,16 @@ theorem py_module_items (b : BlockCfg) (ms : List Member) (h : b.inClass = false
       ms.map (fun m => "PyModule_AddIntConstant(m, \"".toList ++ m.1 ++ "\", ".toList ++ pyValueExpr b m.1 ++ ");".toList) := by
   simp [pyItems, h]
 
+/-- class scope: one `tp_dict` entry per member, in order, under the member's own
+    name, its value the enumerator itself (`py_value_is_enumerator`) -/
+theorem py_class_items (b : BlockCfg) (ms : List Member) (h : b.inClass = true) :
+    pyItems b ms = ["\n{+".toList, "// enumeration ".toList ++ b.cfg.ename, "PyObject *tmp_value;".toList] ++
+      ms.map (fun m =>
+        "tmp_value = PyLong_FromLong(".toList ++ pyValueExpr b m.1 ++ ");\n".toList ++
+        "PyDict_SetItemString((PyObject*) ".toList ++ b.pyType ++ ".tp_dict, \"".toList ++ m.1 ++
+        "\", tmp_value);\n".toList ++ "Py_DECREF(tmp_value);".toList) ++ ["-}".toList] := by
+  simp [pyItems, h]
+
 /-! ### why the two repairs were needed (the observers reject / misread the old text) -/
 
 /-- `1 - -1` used to be written `1--1`: not a C constant expression (`--` is one
@@ -183,12 +193,15 @@ example : (cBlock exBlock (enumMembers exCfg exEnum)).map String.ofList =
     ["", "//  ns1::E", "enum LIB_E {", "    LIB_E_A,", "    LIB_E_B = LIB_E_A+8,", "    LIB_E_C,",
      "    LIB_E_D = 1-(-1),", "    LIB_E_F = -LIB_E_D/2*(LIB_E_B-3),", "    LIB_E_G", "};"] := by decide
 
-/-- An empty enumeration (`enum E {}` is legal C++) is written as `enum LIB_E {` `};`,
-    which is not C (an enumerator list cannot be empty): the block has no reading.
-    This is why `enum_blocks_preserved` asks for a non-empty member list. -/
-theorem empty_enum_c_block_rejected :
-    (cBlock exBlock (enumMembers exCfg [])).map String.ofList = ["", "//  ns1::E", "enum LIB_E {", "};"] ∧
-    evalBlockC (cBlock exBlock (enumMembers exCfg [])) = none := by decide
+/-- An empty enumeration (`enum E {}` is legal C++) has no C counterpart (an
+    enumerator list cannot be empty): nothing is written to the header (before the
+    fix `enum LIB_E {` `};` was written, which the block reader and gcc reject),
+    and the Fortran block is just its comment.  This is why
+    `enum_blocks_preserved` asks for a non-empty member list on the C side. -/
+theorem empty_enum_writes_no_c_block :
+    cBlock exBlock (enumMembers exCfg []) = [] ∧
+    evalBlockC ["enum LIB_E {".toList, "};".toList] = none ∧
+    evalBlockF (fBlock exBlock (enumMembers exCfg [])) = some [] := by decide
 
 example : (pyItems exBlock exEnum).map String.ofList =
     ["", "// enum ns1::E",
